@@ -48,6 +48,16 @@ CHECKS = {
          "Histories over stores combining unique, nullable-unique, set and fk indexes, fk constraints with cascade, plain and ref-counted links and a child store end with the delete of a chosen entity and the re-creation of the same id. After the delete commits the id must not occur anywhere in the file in any encoding; after re-creation all model invariants must hold for the fresh entity. The histogram reports which attachment kinds the victim had.",
          "Ids are disjoint from field values (otherwise an occurrence would be ambiguous). Trusts the model.",
          "DESIGN.md §3 C06"),
+ "C13": (True, "exploration",
+         "property-based testing (rapid) with a write-transaction / read-transaction round-trip oracle, a field-checker frame oracle and codec round-trip + injectivity; native go fuzzing of the codec in the thorough tier",
+         "Generated values of every supported type (boundary and random, arbitrary byte strings, float bit patterns incl. NaN payloads, times in any zone, nulls written three ways, string lists with duplicates, maps/lists nested up to 4 deep) are written in one transaction and read back in a later one through the typed getters; field-checker cases write a baseline and then different values under a drawn checker subset through TypedBucket and PersistContext setters and require exactly the selected fields to change; compound keys are round-tripped and checked for injectivity against random and near-miss lists; unsupported kinds must return an error without panicking.",
+         "Map keys are non-empty and differ from the reserved list-size marker. Sampling; no exhaustive sub-space.",
+         "DESIGN.md §3 C13"),
+ "C14": (True, "exploration",
+         "property-based testing (rapid): 20 cursor kinds x byte-string sets x Next/Seek walks against a sorted-slice position model",
+         "For every cursor the library hands out (raw, typed, reverse, related-entities, link and ref-counted link iteration, set-index value and key cursors, set-symbol runtime cursor, id iteration incl. extended stores, empty, filtered, tree-backed, union, matching-all/any providers) the full enumeration must equal the underlying set once each in key order and every Next / Seek step must leave IsValid and Current (untagged) equal to the model, including sets containing the empty string, shared prefixes, 0xff bytes and the empty set.",
+         "The set-symbol runtime cursor is sought with SeekToString only. Sets of at most 8 elements over an 11-element universe.",
+         "DESIGN.md §3 C14"),
  "C15": (True, "exploration",
          "stateful property-based testing (rapid): model of (parent part, optional child part) per id, operations routed through either store, plain and extended child stores",
          "After every transaction of a generated history the populations returned by FindById / LoadById / QueryIds / IterateIds / IterateValidIds / IsEntityPresent through both stores, the shared and child-only fields, and the parent's unique and set indexes are compared with the model; parent constraints must reject child creates; a committed delete through either store must leave no occurrence of the id in the file.",
